@@ -110,6 +110,10 @@ type Exec struct {
 	curCall  *ssa.CallCommon
 	entryEnv *Env
 	lockIDs  map[string]int
+	curBlock *ssa.BasicBlock
+	curIdx   int
+	only     []string
+	pendingClosure [][2]string
 	against  bool
 }
 
@@ -150,15 +154,49 @@ func (x *Exec) heapBase(key, sort string) Term {
 
 func (x *Exec) fieldKey(si *structInfo, i int) (string, string) {
 	f := si.Fields[i]
-	return "F:" + si.Sort + "." + f.Name, "(Array Int " + f.Sort + ")"
+	k, s := "F:"+si.Sort+"."+f.Name, "(Array Int "+f.Sort+")"
+	if _, ok := x.heapSort[k]; !ok {
+		x.keyType[k] = f.T
+		x.closure(k, x.heapBase(k, s), "allocBase0")
+	}
+	return k, s
 }
 func (x *Exec) elemKey(elemT types.Type) (string, string) {
 	s := x.so.sortOf(elemT)
-	return "E:" + s, "(Array Int (Array Int " + s + "))"
+	k, srt := "E:"+s, "(Array Int (Array Int "+s+"))"
+	if _, ok := x.heapSort[k]; !ok {
+		if s == "Int" {
+			// shared by all int-like element types incl. pointers: element values of pointer slices lie
+			// below the frontier as well, but ints are unconstrained: no closure fact for this key
+		}
+		x.heapBase(k, srt)
+	}
+	return k, srt
+}
+
+// closure: every reference stored in heap array arr (a version of key) refers to an object
+// allocated before `top`.
+func (x *Exec) closure(key string, arr Term, top Term) {
+	t := x.keyType[key]
+	if t == nil || !strings.HasPrefix(key, "F:") {
+		return
+	}
+	switch under(t).(type) {
+	case *types.Pointer, *types.Map, *types.Chan:
+		x.sc.assert(fmt.Sprintf("(forall ((r Int)) (! (<= (select %s r) %s) :pattern ((select %s r))))", arr, top, arr))
+	case *types.Slice:
+		x.sc.assert(fmt.Sprintf("(forall ((r Int)) (! (<= (s_reg (select %s r)) %s) :pattern ((select %s r))))", arr, top, arr))
+	case *types.Interface:
+		if !isErrorType(t) {
+			x.sc.assert(fmt.Sprintf("(forall ((r Int)) (! (<= (i_val (select %s r)) %s) :pattern ((select %s r))))", arr, top, arr))
+		}
+	}
 }
 func (x *Exec) derefKey(t types.Type) (string, string) {
 	s := x.so.sortOf(t)
-	return "D:" + s, "(Array Int " + s + ")"
+	k, srt := "D:"+s, "(Array Int "+s+")"
+	x.heapBase(k, srt)
+	return k, srt
 }
 
 func (x *Exec) freshRef() Term {
@@ -687,13 +725,14 @@ func (x *Exec) runBlock(fr *Frame, b *ssa.BasicBlock, back map[[2]int]bool) {
 		}
 	}
 
-	for _, in := range b.Instrs {
+	for ii, in := range b.Instrs {
 		if _, ok := in.(*ssa.Phi); ok {
 			continue
 		}
 		if in.Pos().IsValid() {
 			x.curPos = in.Pos()
 		}
+		x.curBlock, x.curIdx = b, ii
 		switch t := in.(type) {
 		case *ssa.If:
 			c := x.val(fr, t.Cond).S
@@ -742,8 +781,8 @@ func (x *Exec) oblige(kind, label string, goal Term, pos token.Pos, text string)
 		// still record trivially discharged obligations? keep the count honest: skip.
 		return nil
 	}
-	if x.flags["lockonly"] && kind != "lock" && !(strings.HasPrefix(kind, "pre@") && strings.HasPrefix(label, "locks")) {
-		// lock-discipline unit: functional obligations of this function are decided elsewhere
+	if !x.keepThin(kind, label) {
+		// thin unit (flags only_*): the other obligations of this function are decided elsewhere
 		return nil
 	}
 	// large conjunctive goals are split into one obligation per conjunct (assert-then-assume in order)
@@ -958,4 +997,52 @@ func splitGoal(goal Term) []Term {
 		return out
 	}
 	return []Term{goal}
+}
+
+// keepThin: in thin units (flags only_<prefix>) only obligations whose label starts with one of the
+// prefixes are generated (lock obligations belong to prefix "locks").
+func (x *Exec) keepThin(kind, label string) bool {
+	if x.flags["lockonly"] && len(x.only) == 0 {
+		x.only = []string{"locks"}
+	}
+	if len(x.only) == 0 {
+		return true
+	}
+	for _, p := range x.only {
+		if p == "locks" && kind == "lock" {
+			return true
+		}
+		if strings.HasPrefix(label, p) || strings.Contains(label, ":"+p) {
+			return true
+		}
+	}
+	return false
+}
+
+// callAnchors handles `assert e at call <callee> [k]`: checked right before the k-th call whose
+// callee name contains <callee>.
+func (x *Exec) callAnchors(fr *Frame, calleeKey string, st *State, reach Term, pos token.Pos) {
+	if !fr.isTop || x.fc == nil {
+		return
+	}
+	for i := range x.fc.Anchors {
+		ac := &x.fc.Anchors[i]
+		if ac.At != "call" || !strings.Contains(calleeKey, ac.Callee) {
+			continue
+		}
+		x.callSeq[fmt.Sprintf("anchor:%d", i)]++
+		if x.callSeq[fmt.Sprintf("anchor:%d", i)] != ac.K {
+			continue
+		}
+		b, idx := x.curBlock, x.curIdx
+		env := &Env{vars: map[string]Val{}, cur: st, old: x.old, pkg: fr.fn.Pkg.Pkg, fr: fr, at: b, x: x, freshLo: "allocBase0"}
+		env.lookup = func(name string) (Val, bool) { return x.lookupVar(fr, b, idx, name, env.cur) }
+		t := x.trBool(ac.Clause.Expr, env)
+		if ac.Kind == "assert" {
+			x.oblige("order", fmt.Sprintf("%s@%s#%d", labelOr(ac.Clause.Label, 0), ac.Callee, ac.K), implies(reach, t), pos, ac.Clause.Text)
+		} else {
+			x.sc.assert(implies(reach, t))
+			x.sc.note("ASSUMED at call %s: %s", ac.Callee, ac.Clause.Text)
+		}
+	}
 }
